@@ -6,7 +6,7 @@
    The schema is arbitrary (well formed or not): the statements hold in particular for the 79 generated models.
    What a proof cannot show here — heap growth and run time of the real Go code — is measured by the check on the
    implementation (allocation per call, address-space limit, watchdog). *)
-From Codec Require Import Schema Readers Model Spec GenSchemas Total TotalBr TotalWr Hand.
+From Codec Require Import Schema Readers Model Spec GenSchemas Total TotalBr TotalWr Hand Alloc.
 Open Scope N_scope.
 
 (* any byte list, contiguous reader: a value or an error, never a panic; the model's own fuel (nesting depth =
@@ -46,6 +46,27 @@ Theorem handwritten_total :
      match w_read_name r with HOk _ _ | HEof _ | HErr _ => True | HPanic _ => False | HFuel => False end).
 Proof. exact (conj name_from_bytes_total (conj comp_from_bytes_total (conj b_read_name_total w_read_name_total))). Qed.
 Print Assumptions handwritten_total.
+
+(* allocation: `decode_alloc` adds up, along the parser's own run on the input, what every invoked field reader asks the
+   allocator for (Alloc.v: the struct, make([]byte,l) / make(enc.Name,l/2+1) behind their length guard, io.CopyN's buffer,
+   slice growth, map entries, Delegate's reader, nested parsers).  It is linear in the input length, with a coefficient
+   that depends on the schema only (512 + the largest struct) — for accepted and for rejected inputs alike
+   (CE = 32 KiB: io.CopyN's buffer on the one failing read).  BufferReader; inputs shorter than 2^63 bytes. *)
+Theorem decode_alloc_linear : forall sc mi ic (b : bytes), N.of_nat (length b) < two63 ->
+  decode_alloc sc mi ic b <= kcoef sc * N.of_nat (length b) + smax sc + CE.
+Proof.
+  exact (fun sc mi ic b Hb =>
+    match decode sc mi ic b as o return
+      (match o with
+       | Ok _ => decode_alloc sc mi ic b <= kcoef sc * N.of_nat (length b) + smax sc
+       | Err _ => decode_alloc sc mi ic b <= kcoef sc * N.of_nat (length b) + smax sc + CE
+       | Panic _ => False end) -> _ with
+    | Ok _ => fun H => N.le_trans _ _ _ H (N.le_add_r _ _)
+    | Err _ => fun H => H
+    | Panic _ => fun H => False_ind _ H
+    end (alloc_bound sc (S (length b)) mi ic (br_of b) Hb)).
+Qed.
+Print Assumptions decode_alloc_linear.
 
 (* non-vacuity / regression: inputs that crashed, hung or exhausted the pinned code are plainly rejected *)
 Example c04_example :
